@@ -395,6 +395,7 @@ class Model(Object):
                 new.__dict__[attr] = self.__dict__[attr]
         new.notes = deepcopy(self.notes)
         new.annotation = deepcopy(self.annotation)
+        new._compartments = copy(self._compartments)
 
         new.metabolites = DictList()
         do_not_copy_by_ref = {"_reaction", "_model"}
@@ -402,7 +403,11 @@ class Model(Object):
             new_met = metabolite.__class__()
             for attr, value in metabolite.__dict__.items():
                 if attr not in do_not_copy_by_ref:
-                    new_met.__dict__[attr] = copy(value) if attr == "formula" else value
+                    new_met.__dict__[attr] = (
+                        copy(value)
+                        if attr in ("formula", "notes", "_annotation")
+                        else value
+                    )
             new_met._model = new
             new.metabolites.append(new_met)
 
@@ -412,7 +417,9 @@ class Model(Object):
             for attr, value in gene.__dict__.items():
                 if attr not in do_not_copy_by_ref:
                     new_gene.__dict__[attr] = (
-                        copy(value) if attr == "formula" else value
+                        copy(value)
+                        if attr in ("formula", "notes", "_annotation")
+                        else value
                     )
             new_gene._model = new
             new.genes.append(new_gene)
